@@ -1049,7 +1049,11 @@ def run(ctx):
     ctx.notes['partially_driven'] = partial
     ctx.notes['tolerances'] = {'TolDeriv': f"2^-{T['tol']['deriv']} x (1/h)^m x sum|w_j| x max|v_j|",
                                'TolMap': f"2^-{T['tol']['map']} x magnitudes of the factors",
-                               'TolDual': f"2^-{T['tol']['dual']}", 'TolGlob': f"2^-{T['tol']['glob']} (ElementGlobal)"}
+                               'TolDual': f"2^-{T['tol']['dual']}", 'TolGlob': f"2^-{T['tol']['glob']} (ElementGlobal)",
+                               'TolAgree': '2^-38 x largest entry of the compared fields (evaluation forms, cell lists, wrappers)',
+                               'calibration': 'worst observed residual / magnitude on the unchanged tree (seeds 0..2): stencil '
+                               '2^-50.5 (ElementGlobal 2^-40.5), transformation 2^-53.6, nodal duality 2^-51.4, gdof 2^-37.4, '
+                               'forms / cell lists 2^-54; every tolerance is >= 2^11.5 above'}
     ctx.notes['observations_skipped'] = [dict(sk, scenario=sc['id']) for sc in scs for sk in sc.get('skipped', [])]
     ctx.notes['exported_classes_missing_from_tables'] = missing      # then the enumeration is not exhaustive
     return ctx.finish(rule=RULE, assumptions=[
